@@ -12,6 +12,7 @@ class Net:
         self.transports = []
         self.max_open = 0
         self.attempts = []  # (virtual time, host)
+        self.sleeps = []  # durations the reconnect loop asked to sleep (the sleep itself is skipped)
 
     def open_now(self):
         return [t for t in self.transports if not t.closed_by_controller and not t.closed_by_peer]
@@ -160,6 +161,7 @@ async def run_history(outcomes, then=("close",), hosts=("192.0.2.1",)):
     real_sleep = asyncio.sleep
 
     async def fast_sleep(d, *a):
+        net.sleeps.append(d)
         await real_sleep(0)
 
     saved = (C.aiohappyeyeballs.start_connection, loop.create_connection, C.asyncio.sleep)
@@ -196,6 +198,7 @@ async def run_history(outcomes, then=("close",), hosts=("192.0.2.1",)):
         obs["max_open"] = net.max_open
         obs["open_at_end"] = len(net.open_now())
         obs["attempts"] = len(net.attempts)
+        obs["sleeps"] = list(net.sleeps)
         if not conn.closing:
             try:
                 await conn.close()
@@ -241,3 +244,38 @@ def run(tier="quick", seed=0, tag="C11/ip#native"):
 
     asyncio.run(main())
     return {"cases": cases, "distinct": cases, "failures": failures, "bound": "scripted histories: each pair-verify failure class then success, peer close of the abandoned connection, close()"}
+
+
+
+def run_backoff(tier="quick", seed=0, tag="C10/ip#native"):
+    """bounded stand-in for C10: the REAL connector (SecureHomeKitConnection._reconnect / _connect_once) against the scripted
+    accessory failing pair-verify k times (k = 0..7, and 14 in the thorough tier) before an honest exchange: the connection
+    is eventually established, exactly k + 1 attempts are made (a single connector), every pause is 1.5 x the previous
+    one starting at 0.75 s and never more than 60 s."""
+    cases, failures, seen = 0, [], set()
+
+    def fail(what, **kw):
+        if what not in seen:
+            seen.add(what)
+            failures.append({"clause": f"{tag}.{what}", "scenario": {k: repr(v)[:300] for k, v in kw.items()}})
+
+    for k in list(range(0, 8)) + ([14] if tier == "thorough" else []):
+        for bad in ("tag_bitflip", "no_signature"):
+            cases += 1
+            obs = asyncio.run(run_history([bad] * k + ["honest"], then=()))
+            if not obs["connected"]:
+                fail("gave-up-reconnecting", k=k, variant=bad, obs=obs)
+                continue
+            if obs["attempts"] != k + 1:
+                fail("attempt-count", k=k, variant=bad, attempts=obs["attempts"])
+            want = []
+            iv = 0.5
+            for _ in range(k):
+                iv = min(60, 1.5 * iv)
+                want.append(iv)
+            got = [d for d in obs["sleeps"] if d > 0]
+            if len(got) != k or any(abs(a - b) > 1e-9 for a, b in zip(got, want)) or any(d > 60 for d in got):
+                fail("back-off-sequence", k=k, variant=bad, sleeps=got, want=want)
+            if obs["max_open"] > 1 or obs["open_at_end"] > 1:
+                fail("more-than-one-open-connection", k=k, obs=obs)
+    return {"cases": cases, "failures": failures, "bound": "k = 0..7 (14) failed pair-verify attempts before success, two failure kinds"}
